@@ -131,3 +131,49 @@ def run(ctx, rule="ERR-1"):
     ctx.floor(rule, "call sites returning io::Result", n, 150)
     ctx.ok(rule, "%d call sites returning io::Result" % n, "consumption histogram: %s" % json.dumps(hist, sort_keys=True))
     ctx.extra["err1"] = dict(sites=n, histogram=hist)
+
+
+# --------------------------------------------------------------------------- short reads / short writes
+def short_io_sites(prog, f):
+    """[(block, term, kind, count_used)] for every call of the short-count primitives io::Read::read / io::Write::write in f: these may transfer fewer
+    bytes than asked for, so the returned count has to be looked at (read_exact / write_all are the all-or-error forms)"""
+    from ..flow import derived_locals
+    du = DefUse(f)
+    out = []
+    for b, t in f.calls():
+        c = t.get("callee") or ""
+        if not re.search(r"io::Read::read$|io::Write::write$", c):
+            continue
+        d = t["dest"]["l"]
+        der = derived_locals(f, {d}, through_calls=lambda tt: re.search(r"Try>?::branch$|Result::<T, E>::(unwrap|expect|unwrap_or|unwrap_or_default|ok)$", tt.get("callee") or "") is not None)
+        used = False
+        for l in der:
+            if not f.locals[l].startswith(("usize", "std::option::Option<usize>")):
+                continue
+            for (bb, where, thing) in du.uses_of(l):
+                if where == "T" and thing["t"] in ("switch", "call", "assert"):
+                    used = True
+                elif where != "T" and thing["rhs"]["rv"] in ("bin", "cast") or (where != "T" and thing["lhs"]["l"] == 0):
+                    used = True
+                elif where != "T" and thing["rhs"]["rv"] == "use" and thing["lhs"]["l"] not in der:
+                    used = True
+        out.append((b, t, "read" if c.endswith("read") else "write", used))
+    return out
+
+
+def io_exact(ctx, rule="IO-EXACT"):
+    prog = ctx.prog
+    ctx.rule(rule, "io::Read::read / io::Write::write may transfer fewer bytes than requested: in msi and msi_ffi they are called only by the forwarding Read/Write impls of the "
+                   "stream wrappers, or with the returned count inspected; a call whose count is discarded reads or writes a prefix and carries on")
+    n = 0
+    for f in prog.fns.values():
+        if f.crate not in ("msi", "msi_ffi"):
+            continue
+        for (b, t, kind, used) in short_io_sites(prog, f):
+            n += 1
+            fwd = re.search(r" as std::io::(Read|Write)>::(read|write)$", f.name) is not None and t["dest"]["l"] == 0
+            ctx.check(fwd or used, rule, "%s calls %s" % (short(f.name), kind), "forwarding impl" if fwd else "count inspected",
+                      "%s calls io::%s and discards the byte count: a medium that returns fewer bytes than asked for (the container's streams do, at buffer boundaries) leaves "
+                      "the rest of the buffer unread/unwritten without an error" % (short(f.name), "Read::read" if kind == "read" else "Write::write"), f.loc(t["sp"]), fn=f.name,
+                      key="%s|%s|%s" % (rule, short(f.name), kind))
+    ctx.floor(rule, "short-count I/O call sites (the two forwarding impls)", n, 2)
